@@ -59,19 +59,18 @@ pub mod shadow_std {
     /// atomic access, spawn and join is a scheduling point at which the simulator decides which
     /// thread runs next (world::decide_sched).
     pub mod thread {
-        pub use super::super::simthread::available_parallelism;
+        pub use super::super::simthread::{available_parallelism, park_timeout, spawn, Builder, JoinHandle};
         pub use ::std::thread::*;
         pub use shuttle::thread::{
-            current, park, park_timeout, scope, sleep, spawn, yield_now, AccessError, Builder, JoinHandle, LocalKey,
-            Scope, ScopedJoinHandle, Thread, ThreadId,
+            current, park, scope, sleep, yield_now, AccessError, LocalKey, Scope, ScopedJoinHandle, Thread, ThreadId,
         };
     }
 
     pub mod sync {
         pub use ::std::sync::*;
+        pub use super::super::simsync::{Condvar, Mutex, MutexGuard, WaitTimeoutResult};
         pub use shuttle::sync::{
-            Barrier, BarrierWaitResult, Condvar, Mutex, MutexGuard, Once, OnceState, RwLock, RwLockReadGuard,
-            RwLockWriteGuard, WaitTimeoutResult,
+            Barrier, BarrierWaitResult, Once, OnceState, RwLock, RwLockReadGuard, RwLockWriteGuard,
         };
         pub mod atomic {
             pub use shuttle::sync::atomic::*;
@@ -900,6 +899,23 @@ pub mod simfs {
         pub fn metadata(&self) -> io::Result<std::fs::Metadata> {
             Err(io::Error::new(io::ErrorKind::Unsupported, "metadata of a simulated file"))
         }
+        /// durability is not part of the simulated world (no crash is injected): no-ops
+        pub fn sync_all(&self) -> io::Result<()> {
+            Ok(())
+        }
+        pub fn sync_data(&self) -> io::Result<()> {
+            Ok(())
+        }
+        pub fn set_len(&self, n: u64) -> io::Result<()> {
+            if let Some(key) = &self.write_key {
+                world::with(|w| {
+                    if !w.frozen {
+                        w.written.entry(key.clone()).or_default().resize(n as usize, 0);
+                    }
+                });
+            }
+            Ok(())
+        }
     }
 
     impl io::Read for File {
@@ -1133,6 +1149,107 @@ pub mod simthread {
     use crate::world;
     use std::num::NonZeroUsize;
 
+    /// One polling step of a wait with a deadline: let the other threads run, then say whether
+    /// the deadline passes now. `Some(natural)`: it does — `natural` when no other thread could
+    /// run (only time can pass), otherwise by the simulator's stalled-machine decision. `None`:
+    /// keep waiting (re-check the condition first).
+    pub fn timed_wait_step() -> Option<bool> {
+        world::with(|w| w.yield_probe = None);
+        shuttle::thread::yield_now();
+        let others_can_run = world::with(|w| w.yield_probe.take()).unwrap_or(false);
+        if !others_can_run {
+            world::with(|w| {
+                w.stats.timeouts_natural += 1;
+                w.event("timeout_natural", 0, 0);
+            });
+            return Some(true);
+        }
+        None
+    }
+
+    /// `thread::park_timeout`: may return spuriously at any time, so: let the others run, return.
+    pub fn park_timeout(_dur: std::time::Duration) {
+        shuttle::thread::yield_now();
+    }
+
+    /// shuttle's `JoinHandle` lacks `is_finished`; this one carries a completion flag
+    #[derive(Debug)]
+    pub struct JoinHandle<T> {
+        inner: shuttle::thread::JoinHandle<T>,
+        done: std::sync::Arc<std::sync::atomic::AtomicBool>,
+    }
+    impl<T> JoinHandle<T> {
+        pub fn join(self) -> shuttle::thread::Result<T> {
+            self.inner.join()
+        }
+        pub fn thread(&self) -> &shuttle::thread::Thread {
+            self.inner.thread()
+        }
+        pub fn is_finished(&self) -> bool {
+            // a scheduling point, like every observation of another thread's progress
+            shuttle::thread::yield_now();
+            self.done.load(std::sync::atomic::Ordering::SeqCst)
+        }
+    }
+    struct SetOnDrop(std::sync::Arc<std::sync::atomic::AtomicBool>);
+    impl Drop for SetOnDrop {
+        fn drop(&mut self) {
+            self.0.store(true, std::sync::atomic::Ordering::SeqCst);
+        }
+    }
+    fn wrap<F, T>(f: F, done: std::sync::Arc<std::sync::atomic::AtomicBool>) -> impl FnOnce() -> T
+    where
+        F: FnOnce() -> T,
+    {
+        move || {
+            let _g = SetOnDrop(done);
+            f()
+        }
+    }
+    pub fn spawn<F, T>(f: F) -> JoinHandle<T>
+    where
+        F: FnOnce() -> T + Send + 'static,
+        T: Send + 'static,
+    {
+        let done = std::sync::Arc::new(std::sync::atomic::AtomicBool::new(false));
+        JoinHandle {
+            inner: shuttle::thread::spawn(wrap(f, done.clone())),
+            done,
+        }
+    }
+    #[derive(Debug, Default)]
+    pub struct Builder {
+        inner: shuttle::thread::Builder,
+    }
+    impl Builder {
+        pub fn new() -> Self {
+            Builder {
+                inner: shuttle::thread::Builder::new(),
+            }
+        }
+        pub fn name(self, name: String) -> Self {
+            Builder {
+                inner: self.inner.name(name),
+            }
+        }
+        pub fn stack_size(self, n: usize) -> Self {
+            Builder {
+                inner: self.inner.stack_size(n),
+            }
+        }
+        pub fn spawn<F, T>(self, f: F) -> std::io::Result<JoinHandle<T>>
+        where
+            F: FnOnce() -> T + Send + 'static,
+            T: Send + 'static,
+        {
+            let done = std::sync::Arc::new(std::sync::atomic::AtomicBool::new(false));
+            Ok(JoinHandle {
+                inner: self.inner.spawn(wrap(f, done.clone()))?,
+                done,
+            })
+        }
+    }
+
     /// `thread::available_parallelism()`: a property of the machine the maintainer happens to
     /// use, so a simulator decision.
     pub fn available_parallelism() -> std::io::Result<NonZeroUsize> {
@@ -1176,16 +1293,8 @@ pub mod simthread {
                         Err(sh::TryRecvError::Disconnected) => return Err(sh::RecvTimeoutError::Disconnected),
                         Err(sh::TryRecvError::Empty) => {}
                     }
-                    // nothing to receive yet: let the other threads run
-                    world::with(|w| w.yield_probe = None);
-                    shuttle::thread::yield_now();
-                    let others_can_run = world::with(|w| w.yield_probe.take()).unwrap_or(false);
-                    if !others_can_run {
-                        // every other thread is finished or blocked: only time can pass, and it does
-                        world::with(|w| {
-                            w.stats.timeouts_natural += 1;
-                            w.event("timeout_natural", 0, 0);
-                        });
+                    // nothing to receive yet: let the other threads run; if none can, time passes
+                    if super::timed_wait_step().is_some() {
                         return Err(sh::RecvTimeoutError::Timeout);
                     }
                     match self.inner.try_recv() {
@@ -1246,6 +1355,200 @@ pub mod simthread {
             type IntoIter = IntoIter<T>;
             fn into_iter(self) -> IntoIter<T> {
                 IntoIter { rx: self }
+            }
+        }
+    }
+}
+
+// =============================================================================================
+// Mutex / Condvar with deadlines
+// =============================================================================================
+/// shuttle's `Mutex`/`Condvar` behind thin wrappers whose only purpose is `Condvar::wait_timeout`:
+/// shuttle has no time, its timed waits never time out, and a guard does not give its mutex back,
+/// so a timed wait could not be expressed on top of it. Here a timed wait releases the lock, lets
+/// the other threads run and re-takes it; it returns "notified" when a notification arrived in
+/// between, "timed out" when no other thread could run (only time can pass) or when the
+/// simulator's stalled-machine decision says so.
+pub mod simsync {
+    use crate::world;
+    use shuttle::sync as sh;
+    use std::ops::{Deref, DerefMut};
+    use std::sync::atomic::{AtomicU64, Ordering};
+    use std::sync::{LockResult, PoisonError, TryLockError, TryLockResult};
+    use std::time::Duration;
+
+    pub struct Mutex<T: ?Sized> {
+        inner: sh::Mutex<T>,
+    }
+    pub struct MutexGuard<'a, T: ?Sized + 'a> {
+        g: Option<sh::MutexGuard<'a, T>>,
+        m: &'a Mutex<T>,
+    }
+    impl<T> Mutex<T> {
+        pub const fn new(v: T) -> Self {
+            Mutex { inner: sh::Mutex::new(v) }
+        }
+        pub fn into_inner(self) -> LockResult<T> {
+            self.inner.into_inner()
+        }
+    }
+    impl<T: ?Sized> Mutex<T> {
+        fn wrap<'a>(&'a self, r: LockResult<sh::MutexGuard<'a, T>>) -> LockResult<MutexGuard<'a, T>> {
+            match r {
+                Ok(g) => Ok(MutexGuard { g: Some(g), m: self }),
+                Err(p) => Err(PoisonError::new(MutexGuard {
+                    g: Some(p.into_inner()),
+                    m: self,
+                })),
+            }
+        }
+        pub fn lock(&self) -> LockResult<MutexGuard<'_, T>> {
+            self.wrap(self.inner.lock())
+        }
+        pub fn try_lock(&self) -> TryLockResult<MutexGuard<'_, T>> {
+            match self.inner.try_lock() {
+                Ok(g) => Ok(MutexGuard { g: Some(g), m: self }),
+                Err(TryLockError::WouldBlock) => Err(TryLockError::WouldBlock),
+                Err(TryLockError::Poisoned(p)) => Err(TryLockError::Poisoned(PoisonError::new(MutexGuard {
+                    g: Some(p.into_inner()),
+                    m: self,
+                }))),
+            }
+        }
+        pub fn get_mut(&mut self) -> LockResult<&mut T> {
+            self.inner.get_mut()
+        }
+        pub fn is_poisoned(&self) -> bool {
+            false
+        }
+        pub fn clear_poison(&self) {
+            self.inner.clear_poison()
+        }
+    }
+    impl<T: Default> Default for Mutex<T> {
+        fn default() -> Self {
+            Mutex::new(T::default())
+        }
+    }
+    impl<T> From<T> for Mutex<T> {
+        fn from(v: T) -> Self {
+            Mutex::new(v)
+        }
+    }
+    impl<T: ?Sized + std::fmt::Debug> std::fmt::Debug for Mutex<T> {
+        fn fmt(&self, f: &mut std::fmt::Formatter) -> std::fmt::Result {
+            self.inner.fmt(f)
+        }
+    }
+    impl<T: ?Sized> Deref for MutexGuard<'_, T> {
+        type Target = T;
+        fn deref(&self) -> &T {
+            self.g.as_ref().expect("guard in use")
+        }
+    }
+    impl<T: ?Sized> DerefMut for MutexGuard<'_, T> {
+        fn deref_mut(&mut self) -> &mut T {
+            self.g.as_mut().expect("guard in use")
+        }
+    }
+    impl<T: ?Sized + std::fmt::Debug> std::fmt::Debug for MutexGuard<'_, T> {
+        fn fmt(&self, f: &mut std::fmt::Formatter) -> std::fmt::Result {
+            (**self).fmt(f)
+        }
+    }
+    impl<T: ?Sized + std::fmt::Display> std::fmt::Display for MutexGuard<'_, T> {
+        fn fmt(&self, f: &mut std::fmt::Formatter) -> std::fmt::Result {
+            (**self).fmt(f)
+        }
+    }
+
+    #[derive(Clone, Copy, Debug, PartialEq, Eq)]
+    pub struct WaitTimeoutResult(bool);
+    impl WaitTimeoutResult {
+        pub fn timed_out(&self) -> bool {
+            self.0
+        }
+    }
+
+    #[derive(Debug, Default)]
+    pub struct Condvar {
+        inner: sh::Condvar,
+        /// number of notifications so far (bookkeeping of the timed waits; not a scheduling point)
+        notified: AtomicU64,
+    }
+    impl Condvar {
+        pub const fn new() -> Self {
+            Condvar {
+                inner: sh::Condvar::new(),
+                notified: AtomicU64::new(0),
+            }
+        }
+        pub fn notify_one(&self) {
+            self.notified.fetch_add(1, Ordering::SeqCst);
+            self.inner.notify_one()
+        }
+        pub fn notify_all(&self) {
+            self.notified.fetch_add(1, Ordering::SeqCst);
+            self.inner.notify_all()
+        }
+        pub fn wait<'a, T>(&self, mut guard: MutexGuard<'a, T>) -> LockResult<MutexGuard<'a, T>> {
+            let m = guard.m;
+            let g = guard.g.take().expect("guard in use");
+            m.wrap(self.inner.wait(g))
+        }
+        pub fn wait_while<'a, T, F>(&self, mut guard: MutexGuard<'a, T>, mut condition: F) -> LockResult<MutexGuard<'a, T>>
+        where
+            F: FnMut(&mut T) -> bool,
+        {
+            while condition(&mut *guard) {
+                guard = self.wait(guard)?;
+            }
+            Ok(guard)
+        }
+        pub fn wait_timeout<'a, T>(
+            &self,
+            guard: MutexGuard<'a, T>,
+            _dur: Duration,
+        ) -> LockResult<(MutexGuard<'a, T>, WaitTimeoutResult)> {
+            let m = guard.m;
+            let seen = self.notified.load(Ordering::SeqCst);
+            let mut guard = Some(guard);
+            loop {
+                // release the lock, let the others run, take it again
+                drop(guard.take());
+                let natural = super::simthread::timed_wait_step();
+                let g = match m.lock() {
+                    Ok(g) => g,
+                    Err(p) => return Err(PoisonError::new((p.into_inner(), WaitTimeoutResult(false)))),
+                };
+                if self.notified.load(Ordering::SeqCst) != seen {
+                    return Ok((g, WaitTimeoutResult(false)));
+                }
+                if natural.is_some() || world::with(|w| w.decide_timeout()) {
+                    return Ok((g, WaitTimeoutResult(true)));
+                }
+                guard = Some(g);
+            }
+        }
+        pub fn wait_timeout_while<'a, T, F>(
+            &self,
+            mut guard: MutexGuard<'a, T>,
+            dur: Duration,
+            mut condition: F,
+        ) -> LockResult<(MutexGuard<'a, T>, WaitTimeoutResult)>
+        where
+            F: FnMut(&mut T) -> bool,
+        {
+            loop {
+                if !condition(&mut *guard) {
+                    return Ok((guard, WaitTimeoutResult(false)));
+                }
+                let (g, r) = self.wait_timeout(guard, dur)?;
+                guard = g;
+                if r.timed_out() {
+                    let still = condition(&mut *guard);
+                    return Ok((guard, WaitTimeoutResult(still)));
+                }
             }
         }
     }
